@@ -180,6 +180,7 @@ func replay(lines []string) []caseOut {
 			env := getEnv(int(atou(kvOf(ws, "n"))))
 			ctrl := kvOf(ws, "mode") == "ctrl"
 			c = newCase(env, spectypes.OperatorID(atou(kvOf(ws, "op"))), specqbft.Height(atou(kvOf(ws, "h"))), nil, ctrl, !ctrl, ctrl)
+			c.c02 = *mode == "c02"
 			k = &concr{c}
 			for _, b := range parseIDs(kvOf(ws, "bad")) {
 				c.bad = append(c.bad, k.valBytes(uint64(b)))
